@@ -208,7 +208,7 @@ def do_classbody(job):
     try:
         cls = mk_class("Edited", items)
         c = h.module(cls) if is_mod else h.bundle(cls)
-        res["cls"] = dict(acc=True, obs=observe(c, is_mod, ids, names), kind=type(c).__name__, name=c.name)
+        res["cls"] = dict(acc=True, obs=observe(c, is_mod, ids, names))
     except Exception as e:
         res["cls"] = dict(acc=False, err=exc_info(e))
     return res
@@ -244,6 +244,9 @@ def do_static(job):
     out["decorated_with_base_module"] = rejected(dec_m)
     out["decorated_with_base_bundle"] = rejected(dec_b)
     out["module_decorator_on_non_class"] = rejected(lambda: h.module(h.Signal()))
+    # public attribute names of fresh objects: the names for which Python never reaches __getattr__
+    out["public_module"] = sorted(n for n in dir(h.Module(name="T")) if not n.startswith("_"))
+    out["public_bundle"] = sorted(n for n in dir(h.Bundle(name="T")) if not n.startswith("_"))
     return out
 
 
